@@ -642,6 +642,7 @@ func init() {
 				}
 			}
 			evalFailedImportOracle(c, "C10")
+			evalDisableViaForkOracle(c)
 			// fixed witnesses first: the two open findings (reported every run while they
 			// reproduce) and the repaired defect (must stay silent)
 			for _, w := range []struct {
